@@ -44,6 +44,17 @@ Definition sd_sweep keys vals dfs (prefix : list sd_op) (n : nat) : sx :=
   L (map (fun tl => L (map enc_sd_out (sd_run [[]] (prefix ++ tl)))) (seqs (sd_ops keys vals dfs) n)).
 Definition sd_case (ops : list sd_op) : sx := L (map enc_sd_out (sd_run [[]] ops)).
 
+(* forest of scopes (several ScopedDict objects alive at once) *)
+Definition sf_ops (scopes keys : list nat) (vals dfs : list pyval) : list sf_op :=
+  [FNew 0]
+  ++ flat_map (fun s => flat_map (fun k => map (FSet s k) vals) keys) scopes
+  ++ flat_map (fun s => flat_map (fun k => map (FGet s k) dfs) keys) scopes
+  ++ flat_map (fun s => map (FGetItem s) keys) scopes
+  ++ flat_map (fun s => map (FContains s) keys) scopes.
+Definition sf_sweep scopes keys vals dfs (prefix : list sf_op) (n : nat) : sx :=
+  L (map (fun tl => L (map enc_sd_out (sf_run sf_init (prefix ++ tl)))) (seqs (sf_ops scopes keys vals dfs) n)).
+Definition sf_case (ops : list sf_op) : sx := L (map enc_sd_out (sf_run sf_init ops)).
+
 (* ---- union-find ---- *)
 Definition enc_uf_out (o : uf_out) : sx :=
   match o with
